@@ -4,6 +4,7 @@ CONSTANTS
   Emit = TRUE
   RandomGraphs = 0
   EdgeCounts = {}
+  Shapes = {}
   SliceK = 0
   SliceM = 1
 INVARIANTS TwoDefinitionsAgree EmitReplay
